@@ -56,6 +56,16 @@ def run(prop, tier, seed):
         for kind in ('cache-large', 'fanout-large'):
             tid += 1
             jobs.append((kind, c, seed + tid, tid))
+    # a shard that never received a key (item counter 0, negative after damage) and a used shard whose counter was zeroed
+    E = checkdriver.EMPTY_DAMAGES
+    ecombos = [[d] for d in E] + [['add-file-top', 'count-1'], ['size-3', 'count-1'], ['add-empty-leaf', 'size+5']]
+    for c in ecombos:
+        tid += 1
+        jobs.append(('fanout-empty', c, seed + tid, tid))
+    for c in (['count=0'], ['size=0'], ['count=0', 'delete-file'], ['count=0', 'add-file-top']):
+        for kind in ('cache', 'fanout'):
+            tid += 1
+            jobs.append((kind, c, seed + tid, tid))
     traces = pmap(_run, jobs, procs=14)
     out.traces = len(traces)
     out.events = len(traces)
